@@ -1,5 +1,6 @@
 import functools as ft
 import inspect
+import json
 from typing import Any, Callable, Dict, Iterable, List, Optional
 
 import pydantic
@@ -53,7 +54,8 @@ class PydanticValidator(base.BaseValidator):
         try:
             obj = params_model(**bound_params.arguments)
         except pydantic.ValidationError as e:
-            raise base.ValidationError(*e.errors()) from e
+            # e.errors() may hold exception objects (the ctx of a value_error); e.json() is the json-safe rendering
+            raise base.ValidationError(*json.loads(e.json())) from e
 
         return {attr: getattr(obj, attr) for attr in obj.model_fields} if self._coerce else bound_params.arguments
 
